@@ -39,6 +39,17 @@ ASSUMPTIONS = ["hashlib's SHA-256 and the RFC 9380 expand_message_xmd written in
                "edwards25519 constants are the standard ones (RFC 8032), not read from the library"]
 
 
+def _load_deep():
+    import json as _j, os as _o
+    f = _o.path.join(_o.path.dirname(_o.path.dirname(_o.path.abspath(__file__))), "model", "h2c_deep.json")
+    try:
+        return _j.load(open(f))
+    except Exception:
+        return {}
+
+
+DEEP = _load_deep()
+
 def parts(tier):
     q = tier == "quick"
     return [dict(part="ep", cfg="asan256", shards=5 if q else 8),
@@ -47,7 +58,10 @@ def parts(tier):
             dict(part="ep", cfg="asan255", shards=2 if q else 4),
             dict(part="ed", cfg="asan255", shards=1 if q else 2),
             dict(part="ep", cfg="asan381", shards=2 if q else 4),
-            dict(part="epx", cfg="asan381", shards=2 if q else 4)]
+            dict(part="epx", cfg="asan381", shards=2 if q else 4),
+            # builds whose default map (EP_MAP) is hash-and-increment / SwiftEC: every named entry point again
+            dict(part="ep", cfg="asan256mb", shards=3 if q else 8)] + \
+        ([] if q else [dict(part="ep", cfg="asan256ms", shards=8)])
 
 
 LENS = [0, 1, 2, 3, 31, 32, 33, 54, 55, 56, 57, 63, 64, 65, 100, 119, 120, 127, 128, 129, 150, 183, 184, 191, 192, 193]
@@ -483,6 +497,18 @@ class Work(object):
             for it in range(ctx.n(200, 2500)):
                 fn = rng.choice(fl)
                 self.ep_hash_case(cv, fn, gen_msg(rng, rng.choice(LENS + [rng.randrange(0, 200)] * 6)))
+            # ---- messages that drive hash-and-increment deep (found offline by tools/deep_tai_search.py with the model;
+            # a message needs D increments with probability 2^-D).  The table only supplies inputs: the expected point
+            # is computed by the model as for any other message
+            deep = DEEP.get("%x:%x:%x:%d" % (cv.p, cv.P["a"], cv.P["b"], cv.elm))
+            if deep and self.has("ep_map_basic"):
+                for mh, d in deep["messages"]:
+                    idx += 1
+                    if ctx.mine(idx):
+                        self.ep_hash_case(cv, "ep_map_basic", bytes.fromhex(mh), extra="|deep-increments>=%d" % (d // 4 * 4))
+                self.info.setdefault("deep_increment_messages", {})[nm] = [d for _, d in deep["messages"]]
+            elif self.has("ep_map_basic"):
+                self.info.setdefault("deep_increment_messages", {})[nm] = "no table entry for this (curve, expansion length)"
             # ---- the direct entry point
             if self.has("ep_map_rnd"):
                 if cv.maptype == "svdw":
